@@ -643,6 +643,49 @@ pub fn run_timed(c: &TimedCase, g: &mut TG) -> Option<(String, String)> {
                 ));
             }
         }
+        // absolute readiness for the cases where the property's definition leaves no room: a start time
+        // (ready from that instant on) and IntervalBetweenStartTimes (ready once more than the interval has
+        // passed since the previous transfer STARTED - not since it ended). At a poll where the timed object
+        // of the top queue is ready and not in transmission, the first object packet must be its own.
+        if c.timed.len() == 1 && !c.top_plain && matches!(c.timed[0].kind, 0 | 2) {
+            let t0k = &c.timed[0];
+            let n = SIZES[t0k.size as usize].div_ceil(4).max(1);
+            let mut sent = 0usize; // packets of the timed object so far
+            let mut last_start_poll: Option<usize> = None;
+            let mut i = 0usize;
+            for poll in 0..c.polls {
+                let t = poll as u64 * c.step_ms;
+                let idle = sent % n == 0;
+                let ready = idle
+                    && match t0k.kind {
+                        0 => sent == 0 && t >= t0k.param_ms,
+                        _ => match last_start_poll {
+                            None => true,
+                            Some(sp) => t > sp as u64 * c.step_ms + t0k.param_ms,
+                        },
+                    };
+                let first = full.get(i).filter(|x| x.0 == poll);
+                if ready {
+                    if let Some(x) = first {
+                        if x.2 != 0 {
+                            return Some((
+                                "C13/timed/lower-priority-packet-while-higher-ready".into(),
+                                format!("poll {} (t = {} ms): the timed object of the top queue ({:?}, {} packets sent, previous transfer started at poll {:?}) is ready, yet the first packet of the poll belongs to queue {}", poll, t, t0k, sent, last_start_poll, prio_of(x.2)),
+                            ));
+                        }
+                    }
+                }
+                while i < full.len() && full[i].0 == poll {
+                    if full[i].2 == 0 {
+                        if sent % n == 0 {
+                            last_start_poll = Some(poll);
+                        }
+                        sent += 1;
+                    }
+                    i += 1;
+                }
+            }
+        }
         for q in 1..nq {
             let part = match timed_run(c, q) {
                 Ok(t) => t,
